@@ -338,6 +338,8 @@ def _plan(tier):
         plan.append(("step", dict(natoms=2, others="zero", per_coord_delta=True, power=1.0, symbolic="delta"), ("stepped",)))
         plan.append(("step", dict(natoms=2, others="zero", per_coord_delta=False, power=0.0, symbolic="f"), ("stepped",)))
         plan.append(("step", dict(natoms=2, others="zero", per_coord_delta=True, power=0.5, symbolic="f"), ("stepped",)))
+    plan.append(("density", dict(sign=1), (), "probability==bal-neyts"))
+    plan.append(("step", dict(natoms=1, others="zero", per_coord_delta=False, power=0.25, symbolic="f"), (), "final-zeta==first-accepted-draw"))
     return plan
 
 
